@@ -182,6 +182,17 @@ class USBSignalInEndpoint(Elaboratable):
                     m.d.usb += bytes_transmitted.eq(0),
                     m.next = "TRANSMIT_RESPONSE"
 
+
+        # If there has been a ClearFeature(ENDPOINT_HALT) request addressed to this endpoint,
+        # reset our data toggle to DATA0 [USB2.0: 9.4.5].
+        clear_endpoint_halt = \
+            self.interface.clear_endpoint_halt_in.enable & \
+            self.interface.clear_endpoint_halt_in.direction & \
+            (self.interface.clear_endpoint_halt_in.number == self._endpoint_number)
+
+        with m.If(clear_endpoint_halt):
+            m.d.usb += self.interface.tx_pid_toggle.eq(0)
+
         return m
 
 
